@@ -64,3 +64,17 @@ func init() {
 			Old: "`json:\"revertedTransactionID\"`", New: "`json:\"revertedTransactionId\"`", Expect: "R10d:handle_log:revert-branch-marks-the-reverted-id"},
 	)
 }
+
+func init() {
+	const logf = "internal/log.go"
+	const txf = "internal/transaction.go"
+	const cmdr = "internal/engine/command/commander.go"
+	addMutants(
+		Mutant{Property: "C07", Name: "key-truncated-when-stamped", File: logf, Old: "\tl.IdempotencyKey = key\n", New: "\tif len(key) > 255 {\n\t\tkey = key[:255]\n\t}\n\tl.IdempotencyKey = key\n", Expect: "R07d:"},
+		Mutant{Property: "C07", Name: "key-lowercased-when-stamped", File: logf, Old: "\tl.IdempotencyKey = key\n", New: "\tl.IdempotencyKey = strings.ToLower(key)\n", Expect: "R07d:"},
+		Mutant{Property: "C11", Name: "reference-trimmed-when-stored", File: txf, Old: "\tt.Reference = ref\n", New: "\tt.Reference = strings.TrimSpace(ref)\n",
+			Edits: []Edit{{File: txf, Old: "import (\n", New: "import (\n\t\"strings\"\n"}}, Expect: "R11c:"},
+		Mutant{Property: "C11", Name: "reference-normalised-at-the-call-site", File: cmdr, Old: "\t\t\t\tWithReference(script.Reference)", New: "\t\t\t\tWithReference(strings.ToUpper(script.Reference))",
+			Edits: []Edit{{File: cmdr, Old: "import (\n", New: "import (\n\t\"strings\"\n"}}, Expect: "R11c:"},
+	)
+}
